@@ -25,9 +25,11 @@ variable [Rules]
 
 /-! ### `mark_live` does not touch data -/
 
+omit [Rules] in
 theorem dataOf_setLive (gs : List Obj) (f : Name) : dataOf (setLive gs f) = dataOf gs :=
   dataOf_updFunc (u := fun o => { o with isLive := true }) (fun _ => ⟨rfl, rfl⟩) gs f
 
+omit [Rules] in
 theorem dataOf_markLive : ∀ (n : Nat) (gs : List Obj) (f : Name) (gs' : List Obj), markLive n gs f = some gs' →
     dataOf gs' = dataOf gs := by
   intro n
@@ -82,6 +84,7 @@ theorem dataOf_markRoots {gs gs' : List Obj} (h : markRoots gs = some gs') : dat
 
 def FnNamed (gs : List Obj) : Prop := ∀ o, o ∈ gs → o.isFunction = true → ∃ f, o.sym = .named f
 
+omit [Rules] in
 theorem fnNamed_evolves {gs gs' : List Obj} (h : Evolves gs gs') (w : FnNamed gs) : FnNamed gs' := by
   induction h with
   | refl => exact w
@@ -107,6 +110,7 @@ theorem fnNamed_evolves {gs gs' : List Obj} (h : Evolves gs gs') (w : FnNamed gs
 theorem fnNamed_declAll {ds : List Decl} {st : PState} (h : declAll {} ds = .ok st) : FnNamed st.globals :=
   fnNamed_evolves (evolves_declAll ds h) (fun _ ho => absurd ho List.not_mem_nil)
 
+omit [Rules] in
 theorem LiveUpd.mem_left {gs gs' : List Obj} (h : LiveUpd gs gs') {o : Obj} (ho : o ∈ gs) :
     ∃ o', o' ∈ gs' ∧ (o' = o ∨ o' = { o with isLive := true }) := by
   induction h with
@@ -117,6 +121,7 @@ theorem LiveUpd.mem_left {gs gs' : List Obj} (h : LiveUpd gs gs') {o : Obj} (ho 
     · obtain ⟨o', hm, hh⟩ := ih ho
       exact ⟨o', List.mem_cons_of_mem _ hm, hh⟩
 
+omit [Rules] in
 theorem mem_dataOf {l : List Obj} {o : Obj} : o ∈ dataOf l ↔ o ∈ l ∧ o.isFunction = false := by
   simp [dataOf, List.mem_filter]
 
